@@ -72,10 +72,22 @@ def scenario(tier):
         if tmp:
             b.mkfile("R/d/skip.tmp", 9)
         pats = ["*.tmp"] if tmp else []
+        # patterns that contain a path separator are anchored at the history root: one that addresses an entry three levels
+        # down, and one that would only match if it were applied relative to a sub folder (it must exclude nothing)
+        deep = sym.choose("path_pattern", ["none", "d/e/deep.bin", "e/other.bin"])
+        if deep != "none":
+            if b.exists("R/f2.txt") or b.exists("R/z") or b.exists("R/Re\u0301el"):
+                sym.assume(False)  # (keeps the number of paths in bounds: the path patterns are explored on the small tree)
+            b.mkfile("R/d/e/deep.bin", 10)
+            b.mkfile("R/d/e/other.bin", 11)
+            pats = pats + [deep]
         ignored = cm.make_ignored(cm.DEFAULT_IGNORES + pats, "R")
         fmts = sym.choose("formats", fsets)
         hs = fmts[::-1] if sym.flag("reverse_h") else fmts
-        if sym.flag("nested_history_at_d"):
+        nested_d = sym.flag("nested_history_at_d")
+        if nested_d and deep != "none":
+            sym.assume(False)  # what a pattern that names a path means inside a nested history is not specified by the statement
+        if nested_d:
             # a nested history: its root hash is also recorded as directory entry of the parent and must follow the definition
             r = b.run("create", root="R/d", h=["md5"], i=pats)
             b.require(r.exit == 0, "setup-create", str(r))
@@ -138,7 +150,8 @@ def scenario(tier):
             r = b.run("create", root="R", h=hs + [extra], i=pats)
             check_dirhashes(b, b.manifests("R")[-1], "R", fmts + [extra], ignored, "gen3 (format %s added) after %s" % (extra, mut))
         # corollaries of the definition (checked on the recorded values; not comparable when the ignore patterns changed in between)
-        for f in ([] if late else fmts):
+        # (... or when a pattern that names a path stops matching because the directory was renamed)
+        for f in ([] if late or (deep == "d/e/deep.bin" and mut == "rename-dir") else fmts):
             c1, s1 = [(e.digest, e.structure) for e in m.roothash if e.fmt == f][0]
             c2, s2 = [(e.digest, e.structure) for e in m2.roothash if e.fmt == f][0]
             if mut.startswith("rename"):
@@ -150,7 +163,7 @@ def scenario(tier):
     return fn
 
 
-def harnesses(tier):
+def _harnesses(tier):
     out = ["trees deeper than 2-3 levels", "nested histories deeper than one level (C08)"]
     return [
         Harness("c07-order", order_scenario(tier), frontier=4, budget_s=2400, backend={"symbolic_order": True},
@@ -173,3 +186,8 @@ def harnesses(tier):
 
 def fsets_desc(tier):
     return "md5|c4|xxh64+sha1 (-h order symbolic)" if tier == "quick" else "each single format, md5+c4, all six (-h order symbolic)"
+
+
+def harnesses(tier):
+    from . import tour
+    return list(_harnesses(tier)) + tour.harnesses(tier, "C07")
